@@ -46,7 +46,7 @@ func prevCheckTracks(c *Ctx) []engine.Track {
 				return false, 0
 			}
 			s := cd.EdgeOrd(true)
-			if s == engine.LT|engine.GT {
+			if isNE(s) {
 				return true, engine.True
 			}
 			if s == engine.EQ {
@@ -383,6 +383,9 @@ func c04R4(c *Ctx, rule string) {
 	engine.EachInstr(fn, func(in ssa.Instruction) {
 		if ifi, ok := in.(*ssa.If); ok {
 			cd := c.P.CondOf(ifi.Cond)
+			if cd.IsRel && cd.YV == ssa.Value(idx) {
+				cd = cd.Flipped()
+			}
 			if cd.IsRel && cd.XV == ssa.Value(idx) && cd.EdgeOrd(true) == engine.LT|engine.EQ {
 				bound = cd.Y
 				boundOK = strings.HasPrefix(cd.Y, "min(") && strings.HasSuffix(cd.Y, ", p3)")
